@@ -52,6 +52,15 @@ Design rules (all conservative = they can only ADD atoms / edges):
     (`tempfile`, `glob`, `importlib`, `configparser`, `shutil` ... are outside the module whitelist: UnknownModule);
   * inside callbacks/timer.py clock values also flow through CONTROL dependence: a name / own attribute assigned under a
     branch or loop whose test reads a clock value is itself a clock value (in every method of the module);
+  * process-wide settings (hidden global state that the seeding call does not reset): a call of / reference to
+    `torch.set_default_dtype / set_default_device / set_num_threads / set_flush_denormal / use_deterministic_algorithms / set_*`,
+    `numpy.seterr / seterrcall / setbufsize`, `warnings.simplefilter / filterwarnings / resetwarnings`, and a store into an
+    attribute of an imported module (`torch.backends.cudnn.deterministic = ..`), of a package module, of a package class
+    (`Cls.x = ..`, `type(self).x = ..`, `self.__class__.x = ..`) or of a module-level object gives Environ -- a foreign source for
+    every LATER operation -- unless the same function restores the setting on every path (try/finally with a saved value, a
+    with-block of a restoring context manager, `except BaseException: restore; raise`, an __enter__/__exit__ pair); a restore that
+    is merely the last statement is not enough (a user callback / metric / observable may raise in between); `global` statements
+    give UnknownModule "construct:Global"; os.environ / os.putenv / sys.* are Environ whatever the path;
   * statements or expressions the translator does not know give UnknownModule "construct:<X>".
 
 User-supplied callables (optimizer / scheduler classes, metric functions, LambdaCallback
@@ -1108,6 +1117,16 @@ class FnVisitor:
         sub = False
         while isinstance(t, ast.Subscript):
             t, sub = t.value, True
+        # class-level state reached through an instance:  type(x).attr = v,  x.__class__.attr = v
+        e = t
+        while isinstance(e, ast.Attribute) and not sub:
+            inner = e.value
+            if isinstance(inner, ast.Attribute) and inner.attr == "__class__":
+                return "store:<class of an instance>." + e.attr
+            if isinstance(inner, ast.Call) and isinstance(inner.func, ast.Name) and inner.func.id == "type" \
+                    and "type" not in self.locals and len(inner.args) == 1:
+                return "store:type(...)." + e.attr
+            e = inner
         ch = self.tr.attr_chain(t)
         if ch is None or not ch[1]:
             return None
